@@ -361,10 +361,29 @@ def _esfx(inst, expo):
     return f":{inst.ename}={expo}" if float(expo).is_integer() else f":{inst.ename}=non-integer"
 
 
-def run_pair(out, inst, fenv, expo, rule_name, make_rule, tag, trim_value, direction, tlc_grid=None, inverse=True):
+def run_pair(out, inst, fenv, expo, rule_name, make_rule, tag, trim_value, direction, tlc_grid=None, inverse=True, sub=True):
     """transform_1d_grid of one (transform, rule) pair for every trim setting (+ inverse wrapper)."""
     from grid.basegrid import OneDGrid
     from grid.rtransform import InverseRTransform
+    if sub:
+        # the same rule restricted to a strict sub-interval of its domain: "the new domain is the ordered
+        # image of the OLD one" (of the grid's domain, not of the transformation's whole domain)
+        def make_sub():
+            r0 = make_rule()
+            xs0 = np.asarray(r0.points, dtype=float)
+            ws0 = np.asarray(r0.weights, dtype=float)
+            o = np.argsort(xs0)
+            xs0, ws0 = xs0[o], ws0[o]
+            a, b = (xs0[0] + xs0[1]) / 2, (xs0[-2] + xs0[-1]) / 2
+            keep = (xs0 > a) & (xs0 < b)
+            return OneDGrid(xs0[keep].copy(), ws0[keep].copy(), (float(a), float(b)))
+        try:
+            ok = make_rule().size >= 4 and make_sub().size >= 2
+        except Exception:  # noqa: BLE001
+            ok = False
+        if ok:
+            run_pair(out, inst, fenv, expo, rule_name + "[sub-interval]", make_sub, tag + ":sub", trim_value, direction,
+                     tlc_grid=None, inverse=False, sub=False)
     lbl = LIB[inst.cls]
     esfx = _esfx(inst, expo)
     for trim in ((True, False) if inst.trims else (None,)):
